@@ -28,8 +28,10 @@ try:
         for p in props:
             try:
                 base = _baseline(p)
-                got = _findings(p, prog)
-                new = [f"{got[k].rule} {got[k].construct[:90]}" for k in got if k not in base]
+                from fsa.__main__ import run_check
+                _, cx = run_check(p, "quick", prog=prog, write=False)
+                got = {f.key: f for f in cx.findings}
+                new = [f"{got[k].rule} {got[k].construct[:90]}" for k in got if k not in base] + [f"ANALYSIS-ERROR {e}"[:200] for e in cx.errors]
             except AnalysisError as e:
                 new = [f"ANALYSIS-ERROR {e}"[:200]]
             except Exception as e:  # noqa: BLE001
